@@ -72,6 +72,7 @@ def run(ctx: Ctx):
     run_models(ctx)
     run_surrogates(ctx)
     run_nan_samples(ctx)
+    run_field_loops(ctx)
     run_sequential_loops(ctx)
 
 
@@ -255,6 +256,82 @@ def run_surrogates(ctx: Ctx):
                 a, b = vals[k], float(np.ravel(ys[k])[0])
                 if not ((a != a and b != b) or abs(a - b) <= 1e-12 * (1 + abs(a))):
                     ctx.violate('C06:batch-dependence', f'surrogate mode, sample {s}, {k}: {a} in the batch, {b} alone', {**case, 'sample': s}); break
+
+
+def run_field_loops(ctx: Ctx):
+    """feedback loops whose coupling variables are FIELD quantities (SVD-compressed: the solver iterates on latent coefficients); the
+    fields live in a subspace the compression represents exactly and the members are affine, so the exact solution is known: returned
+    samples reproduce themselves under re-evaluation of every member (within a few fpi_tol) and match the exact linear solve"""
+    from amisc import Component, System, Variable
+    from amisc.compression import SVD
+    rng = ctx.rng
+    for n in range(ctx.pick(6, 30)):
+        npts = rng.randint(6, 9)
+        grid = np.linspace(0, 1, npts)
+        B = np.vstack([np.sin(np.pi * grid), np.cos(np.pi * grid), grid ** 2])
+        rs = np.random.RandomState(ctx.seed * 7 + n)
+        D = (rs.uniform(-3, 3, (200, 3)) @ B).T
+
+        def field(name):
+            v = Variable(name, compression=SVD(rank=3, coords=grid))
+            v.compression.compute_map(data_matrix=D)
+            lat_ = v.compression.compress(D.T)
+            v.update_domain(list(zip(np.min(lat_, axis=0), np.max(lat_, axis=0))), override=True)
+            return v
+        size = rng.randint(2, 3)
+        gains = [rng.choice([0.9, 0.95, 0.98, -0.95]) for _ in range(size)]       # slowly contracting: many sweeps, the mixing step matters
+        offs = [np.array([rng.randint(-2, 2) / 4 for _ in range(3)]) @ B for _ in range(size)]
+        names = ['fu', 'fv', 'fw'][:size]
+        fvars = [field(nm) for nm in names]
+        x = Variable('x', distribution='U(0, 1)')
+        comps = []
+        for i in range(size):
+            prev = names[(i - 1) % size]
+
+            def fm(inputs, _i=i, _prev=prev, _g=gains[i], _o=offs[i]):
+                out = _g * np.asarray(inputs[_prev], dtype=float) + _o
+                if _i == 0:
+                    out = out + np.asarray(inputs['x'], dtype=float)[..., None] * B[0]
+                return {names[_i]: out}
+            comps.append(Component(fm, ([x] if i == 0 else []) + [fvars[(i - 1) % size]], [fvars[i]], name=f'F{i}', vectorized=True))
+        system = System(*comps, name=f'fl{n}')
+        N = rng.randint(1, 5)
+        xs = np.array([round(rng.random(), 4) for _ in range(N)])
+        tol = rng.choice([1e-4, 1e-6, 1e-8]); mem = rng.choice([2, 3, 5, 10])
+        G = float(np.prod(gains))
+        case = {'field_loop': n, 'size': size, 'gains': gains, 'x': xs.tolist(), 'fpi_tol': tol, 'anderson_mem': mem}
+        ctx.case(case, nontrivial=True, kind='field-loop')
+        try:
+            y = system.predict({'x': xs}, fpi_tol=tol, anderson_mem=mem, max_fpi_iter=600)
+        except Exception as e:
+            ctx.violate('C06:predict-raises', f'field-coupled loop: {type(e).__name__}: {e}', case); continue
+        ok = np.full(xs.shape, True)
+        for arr in y.values():
+            ok &= ~np.isnan(np.asarray(arr, dtype=float))
+        if not ok.any():
+            ctx.count('field_loop_all_nan'); continue
+
+        def lat(name):
+            return {k: a for k, a in y.items() if k.startswith(f'{name}_LATENT')}
+        res = 0.0
+        for i, comp in enumerate(comps):
+            ins = {**lat(names[(i - 1) % size]), **({'x': xs} if i == 0 else {})}
+            r = comp.predict(ins)
+            for k, arr in r.items():
+                res = max(res, float(np.max(np.abs(np.asarray(arr) - np.asarray(y[k]))[ok])))
+        if res > 5 * tol:
+            ctx.violate('C06:returned-not-a-fixed-point', f'field-coupled loop: re-evaluating the members at the returned latent coefficients moves them by '
+                        f'{res:.3e} = {res / tol:.1f} x fpi_tol', case)
+        # exact solve of the first field: u = g0 * (... chain ...) ; for an affine ring u = (1 - G)^-1 * (constant + x b1)
+        const = offs[0].copy(); acc = gains[0]
+        for i in range(size - 1, 0, -1):
+            const = const + acc * offs[i]; acc = acc * gains[i]
+        u_exact = (xs[:, None] * B[0] + const) / (1 - G)
+        u_rec = fvars[0].compression.reconstruct(np.stack([y[f'{names[0]}_LATENT{i}'] for i in range(3)], axis=-1))
+        err = float(np.max(np.abs(u_rec - u_exact)[ok]))
+        bound = 10 * np.sqrt(3) * tol / (1 - abs(G)) + 1e-9
+        if err > bound:
+            ctx.violate('C06:affine-solve-mismatch', f'field-coupled loop: field {names[0]} differs from the exact linear solve by {err:.3e} > {bound:.3e}', case)
 
 
 def run_nan_samples(ctx: Ctx):
